@@ -797,13 +797,22 @@ var cpTampers = []cpTamper{
 		orig := c.Balances[r.idx]
 		b, _ := decodeBase(orig.AccountData)
 		b.MicroAlgos.Raw += 1_000_000
-		piece := encoded.BalanceRecordV6{Address: orig.Address, AccountData: protocol.Encode(&b), ExpectingMoreEntries: true}
+		// one to three leading pieces; exactly one of them (any position) carries the forged data, the others
+		// repeat the original data - every piece must agree with the completing record, not just its neighbour
+		k := 1 + e.rg.IntN(3)
+		j := e.rg.IntN(k)
 		nb := append([]encoded.BalanceRecordV6{}, c.Balances[:r.idx]...)
-		nb = append(nb, piece)
+		for i := 0; i < k; i++ {
+			piece := encoded.BalanceRecordV6{Address: orig.Address, AccountData: orig.AccountData, ExpectingMoreEntries: true}
+			if i == j {
+				piece.AccountData = protocol.Encode(&b)
+			}
+			nb = append(nb, piece)
+		}
 		nb = append(nb, c.Balances[r.idx:]...)
 		c.Balances = nb
 		e.dirty[r.sec] = true
-		return fmt.Sprintf("account %s preceded by a resource-less partial record carrying %d micro-algos instead of %d", shortAddr(orig.Address), b.MicroAlgos.Raw, b.MicroAlgos.Raw-1_000_000)
+		return fmt.Sprintf("account %s preceded by %d resource-less partial record(s), number %d carrying %d micro-algos instead of %d", shortAddr(orig.Address), k, j+1, b.MicroAlgos.Raw, b.MicroAlgos.Raw-1_000_000)
 	}},
 	{"partial-record-adds-account", func(e *cpEdit) string {
 		// a record flagged ExpectingMoreEntries for an address that never completes, at the very end of the accounts
